@@ -133,7 +133,7 @@ class Ctx:
             'the reference arithmetic is __float128 (libquadmath), exact integers or Python Fraction',
         ]
         self.coverage_extra = {}
-        self.deadline = self.t0 + float(os.environ.get('VERIF_DEADLINE_S', '2400'))
+        self.deadline = self.t0 + float(os.environ.get('VERIF_DEADLINE_S', '2400' if tier == 'quick' else '14400'))
         self.capped = False
         self._stdin_cache = {}
         self._replay_cache = {}
